@@ -229,37 +229,65 @@ def check(ctx):
     from .extra import rule_result_slots, rule_kwargs_positional_only
     ctx.run(rule_result_slots, "C02.B4")
     ctx.run(rule_kwargs_positional_only, "C02.B7")
-    # ---------------------------------------------------------------- B5
+    # ---------------------------------------------------------------- B5  (guarded values: independent of if/IfExp spelling)
     run = rr.run
-    rets = [n_ for n_ in run.own_nodes() if isinstance(n_, ast.Return) and n_.value is not None and isinstance(n_.value, ast.Call) and rr.run_physical in m.callee_funcs(run, n_.value)]
-    ctx.ob("C02.B5", f"{run.short}/returns-execution-value", len(rets) == 1, loc(run), "run returns the value of run_physical" if len(rets) == 1 else "run does not return run_physical's value")
-    ob = [e for nm, bs in run.bindings.items() for k, e, p_ in bs if k == "assign" and e is not None and ".gather(" in norm(e)]
-    keep_r = global_names(m, run)
-    ok = len(ob) == 1 and canon([ob[0]], keep_r) == canon(["plan.gather(output) if output is not None else None"], keep_r) and \
-        any(isinstance(x, ast.Call) and isinstance(x.func, ast.Attribute) and x.func.attr == "gather" and len(x.args) == 1 and is_name(x.args[0], "output") for x in ast.walk(ob[0]))
-    ctx.ob("C02.B5", f"{run.short}/gathers-output", ok, loc(run), "the output spec is gathered (None means no output)" if ok else "the output spec is not gathered as `plan.gather(output) if output is not None else None`")
+    gr = E.guarded_returns(run)
+    exec_rets = [(c_, v_) for c_, v_ in gr if isinstance(v_, ast.Call) and v_ in run.own_calls() and rr.run_physical in m.callee_funcs(run, v_)]
+    if not exec_rets:
+        # through a result variable: the expanded copy is not an own call node; match by callee name
+        exec_rets = [(c_, v_) for c_, v_ in gr if isinstance(v_, ast.Call) and norm(v_.func) == rr.run_physical.name]
+    other = [(c_, v_) for c_, v_ in gr if (c_, v_) not in exec_rets and not any(k == "set:dry_run" and pol for k, pol in c_)]
+    ok = len(exec_rets) == 1 and not other
+    ctx.ob("C02.B5", f"{run.short}/returns-execution-value", ok, loc(run), "run returns the value of run_physical" if ok else "run does not return run_physical's value")
+    okg = False
+    for nm in run.bindings:
+        ga = E.guarded_assigns(run, nm)
+        gath = [(c_, v_) for c_, v_ in ga if isinstance(v_, ast.Call) and isinstance(v_.func, ast.Attribute) and v_.func.attr == "gather"
+                and len(v_.args) == 1 and is_name(v_.args[0], "output") and not v_.keywords]
+        if gath and nm != "redirected_output_node":
+            nones = [(c_, v_) for c_, v_ in ga if isinstance(v_, ast.Constant) and v_.value is None]
+            others = [x for x in ga if x not in gath and x not in nones]
+            # gathered exactly when an output was requested; None otherwise (either as the else-value or as a default)
+            okg = len(gath) == 1 and not others and E.about(gath[0][0], "output") == {("set:output", True)} and \
+                all(E.about(c_, "output") <= {("set:output", False)} for c_, v_ in nones) and bool(nones)
+    ctx.ob("C02.B5", f"{run.short}/gathers-output", okg, loc(run), "the output spec is gathered (None means no output)" if okg else "the output spec is not gathered as `plan.gather(output) if output is not None else None`")
     rp = rr.run_physical
-    rets = [n_ for n_ in rp.own_nodes() if isinstance(n_, ast.Return) and n_.value is not None]
-    ok = len(rets) == 1 and canon([rets[0].value], global_names(m, rp)) == canon(["output_slot.value if output_slot else None"], global_names(m, rp))
+    gr = E.guarded_returns(rp)
+    vals = [(c_, v_) for c_, v_ in gr if isinstance(v_, ast.Attribute) and v_.attr == "value" and isinstance(v_.value, ast.Name)]
+    ok = len(vals) == 1
+    v_ = vals[0][1].value.id if ok else None
+    if ok:
+        rest = [(c_, x) for c_, x in gr if (c_, x) not in vals]
+        ok = E.about(vals[0][0], v_) == {(f"set:{v_}", True)} and bool(rest) and \
+            all(isinstance(x, ast.Constant) and x.value is None and E.about(c_, v_) == {(f"set:{v_}", False)} for c_, x in rest)
     if ok:
         # that variable is the second element returned by the preparation step
-        tn_ = sorted(names_in(rets[0].value.test)) if isinstance(rets[0].value, ast.IfExp) else []
-        v_ = tn_[0] if len(tn_) == 1 else None
-        b_ = [b for b in rp.bindings.get(v_, []) if b[0] == "assign"] if v_ else []
+        b_ = [b for b in rp.bindings.get(v_, []) if b[0] == "assign"]
         ok = len(b_) == 1 and b_[0][2] == (1,) and isinstance(b_[0][1], ast.Call) and rr.prep_run in m.callee_funcs(rp, b_[0][1])
     ctx.ob("C02.B5", f"{rp.short}/returns-slot-value", ok, loc(rp), "returns the output slot's value" if ok else "run_physical does not return the output slot's value")
     mk = [f for f in m.funcs.values() if f.name == "_create_bound_call_lookup_and_output_slot"]
     if len(mk) == 1:
         f = mk[0]
         onp = [p for p in f.params if "output" in p]
-        keep = global_names(m, f)
-        ob = [e for nm, bs in f.bindings.items() for k, e, p_ in bs if k == "assign" and isinstance(e, ast.IfExp) and onp and onp[0] in names_in(e)]
-        ok = len(ob) == 1 and bool(onp) and canon([ob[0]], keep) == canon([f"result_lookup[{onp[0]}] if {onp[0]} else None"], keep)
-        if ok:
-            # the subscripted table is the per-run slot table
-            subs = [x for x in ast.walk(ob[0]) if isinstance(x, ast.Subscript) and isinstance(x.value, ast.Name)]
-            tb = subs[0].value.id if len(subs) == 1 else None
-            ok = tb is not None and any(k == "assign" and isinstance(e, ast.DictComp) and "Slot(" in norm(e.value) for k, e, p_ in f.bindings.get(tb, []))
+        ok = False
+        if onp:
+            on = onp[0]
+            for nm in f.bindings:
+                ga = E.guarded_assigns(f, nm)
+                subs = [(c_, x) for c_, x in ga if isinstance(x, ast.Subscript) and isinstance(x.value, ast.Name) and is_name(x.slice, on)]
+                if len(subs) != 1:
+                    continue
+                nones = [(c_, x) for c_, x in ga if isinstance(x, ast.Constant) and x.value is None]
+                rest = [x for x in ga if x not in subs and x not in nones]
+                tb = subs[0][1].value.id
+                # the subscripted table is the per-run slot table (one fresh Slot per non-literal node)
+                is_tbl = any(k == "assign" and isinstance(e, ast.DictComp) and "Slot(" in norm(e.value) for k, e, p_ in f.bindings.get(tb, [])) or \
+                    any(isinstance(x, ast.Assign) and isinstance(x.targets[0], ast.Subscript) and is_name(x.targets[0].value, tb) and "Slot(" in norm(x.value)
+                        for x in f.own_nodes())
+                ok = not rest and E.about(subs[0][0], on) == {(f"set:{on}", True)} and bool(nones) and \
+                    all(E.about(c_, on) <= {(f"set:{on}", False)} for c_, x in nones) and is_tbl
+                if ok:
+                    break
         ctx.ob("C02.B5", f"{f.short}/output-slot", ok, loc(f), "output slot = slot-table entry of the output node (a literal is its own slot)" if ok else "output slot is not the slot-table entry of the output node")
     pc = R.calls_to(m, rp, rr.prep_run)
     ok = len(pc) == 1 and is_name(arg(pc[0], None, "output_node"), "output_node")
